@@ -51,7 +51,7 @@ def mini_streets(min_bet: Any, hole: int = 2) -> tuple:
 def h_showdown(ctx: Any, n: int, depth: int, hilo: bool = False, boards: int = 1,
                mode: str = 'T', shape: str = 'free', deck: str = 'identity',
                levels: int = 0, trim: bool = True, ante: int = 0, part: Any = None,
-               lo_levels: int = 0) -> None:
+               lo_levels: int = 0, conserve: bool = False) -> None:
     C.set_deck_order(deck)
     levels = levels or n
     types: tuple = (make_symhand(ctx, 'H', False, levels),)
@@ -68,6 +68,8 @@ def h_showdown(ctx: Any, n: int, depth: int, hilo: bool = False, boards: int = 1
 
     def mon(state: Any, op: Any) -> None:
         ctx.ops += 1
+        if conserve:
+            C.check_conservation(ctx, state, type(op).__name__)     # C01 monitor on every deal at once
         if isinstance(op, ChipsPushing):
             if not snap:
                 snap['live'] = list(state.statuses)
@@ -104,6 +106,9 @@ def h_showdown(ctx: Any, n: int, depth: int, hilo: bool = False, boards: int = 1
                 decide(ctx, st, f'd{step}')
             finish(ctx, st)
         ctx.check(not st.status, 'not-terminal')
+        if conserve:
+            C.check_terminal(ctx, st)
+            ctx.cover('terminal')
         ctx.check(bool(snap), 'no-push-recorded')
         live, contrib = snap['live'], snap['contrib']
         n_live = sum(1 for x in live if x)
